@@ -147,7 +147,7 @@ Proof.
   assert (HP : vm_ppb m = 4) by lia.
   assert (HPS : vm_page_size m = vm_bank_size m * 4) by lia.
   rewrite HPS, HIL, HP, EB, ER.
-  rewrite mod_mul_mod, mod_mul_div by lia.
+  rewrite mod_mul_mod, (mod_mul_div q (2 * B) 4) by lia.
   rewrite <- !Z.div_div by lia.
   rewrite !mod_mul_div by lia.
   cbv zeta. reflexivity.
